@@ -86,7 +86,7 @@ func c18Eval(c *Ctx, cs *c18Case, o c18Out) {
 		case strings.HasPrefix(res.Stage, "driver"):
 			c.Disagree("C18/dot/driver", "the Lean DOT parser could not be asked: "+res.Stage, "pvdrv-C18 dot.check", cs)
 		case !res.OK:
-			site := c18DotSite(o.out)
+			site := c18DotSite(c, o.out)
 			c.Res.Hit("dot-invalid/" + site)
 			c.Violation("C18/dot/site="+site, fmt.Sprintf("DOT output does not %s under the Graphviz grammar (site %s, hot position %s): %s", res.Stage, site, cs.Hot, trunc(c18Excerpt(o.out, cs.Marker))), cs)
 		case len(res.Undeclared) > 0:
@@ -125,7 +125,7 @@ func c18Eval(c *Ctx, cs *c18Case, o c18Out) {
 		case strings.HasPrefix(res.Stage, "driver"):
 			c.Disagree("C18/dot/driver", "the Lean DOT parser could not be asked: "+res.Stage, "pvdrv-C18 dot.check", cs)
 		case !res.OK:
-			c.Violation("C18/dot/site="+c18DotSite(o.out), "single-node graph is not valid DOT: "+trunc(string(o.out)), cs)
+			c.Violation("C18/dot/site="+c18DotSite(c, o.out), "single-node graph is not valid DOT: "+trunc(string(o.out)), cs)
 		case got != want:
 			c.Disagree("C18/dot/escapeForDot-model", fmt.Sprintf("node tooltip carries %s, the model of escapeForDot gives %s", got, want), "Dot.escape models escapeForDot (lex_quoted_escape, unescape_escape)", cs)
 		}
@@ -272,7 +272,7 @@ func runC18(c *Ctx) {
 
 	// --- stream 1: the pprof binary, started now, evaluated at the end ---
 	var cli []*c18Case
-	nDot, nCg := 220*c.Scale, 120*c.Scale
+	nDot, nCg := 400*c.Scale, 200*c.Scale
 	if c.Pprof == "" {
 		nDot, nCg = 0, 0
 		c.Res.Notes = append(c.Res.Notes, "no pprof binary: CLI stream skipped")
@@ -316,7 +316,7 @@ func runC18(c *Ctx) {
 	}
 
 	// --- stream 2: graph.ComposeDot on hand-built graphs ---
-	for i := 0; i < 1200*c.Scale; i++ {
+	for i := 0; i < 3600*c.Scale; i++ {
 		n++
 		hot := c18GraphPositions[i%len(c18GraphPositions)]
 		cs := &c18Case{Kind: "compose", Hot: hot, Marker: marker(n)}
@@ -324,7 +324,7 @@ func runC18(c *Ctx) {
 		c18Eval(c, cs, c18Exec(c, tmp, 0, cs))
 	}
 	// --- stream 3: escapeForDot against its model ---
-	for i := 0; i < 300*c.Scale; i++ {
+	for i := 0; i < 1000*c.Scale; i++ {
 		rr := r.Fork()
 		var s string
 		switch rr.Intn(4) {
@@ -346,7 +346,7 @@ func runC18(c *Ctx) {
 		c18Eval(c, cs, c18Exec(c, tmp, 0, cs))
 	}
 	// --- stream 4: report.Generate in-process ---
-	for i := 0; i < 700*c.Scale; i++ {
+	for i := 0; i < 2400*c.Scale; i++ {
 		n++
 		hot := c18Positions[i%len(c18Positions)]
 		cs := &c18Case{Kind: "dot-report", Hot: hot, Marker: marker(n)}
@@ -363,7 +363,7 @@ func runC18(c *Ctx) {
 		c18Eval(c, cs, c18Exec(c, tmp, 0, cs))
 	}
 	// --- stream 5: web UI pages ---
-	for i := 0; i < 26*c.Scale; i++ {
+	for i := 0; i < 78*c.Scale; i++ {
 		n++
 		hot := c18Positions[i%len(c18Positions)]
 		cs := &c18Case{Kind: "html", Hot: hot, Marker: marker(n)}
